@@ -14,8 +14,10 @@
 EXTENDS QProg, Queuing, Json, IOUtils, SequencesExt
 CONSTANTS MaxSize, MaxDepth, NFlav, UseExtra,   \* UseExtra: also run the programs of the JSON file EXTRA_FILE
           RangeB                                \* the two definitions of len(range) are compared on -RangeB..RangeB
-VARIABLES prog, flav, acts, pc, vs, recent, trys, lastq, hist, status, bad
-ivars == <<prog, flav, acts, pc, vs, recent, trys, lastq, hist, status, bad>>
+VARIABLES prog, flav, acts, pc, vs, recent, trys, lastq, hist, status, bad,
+          raising, skipc, skipt      \* an exception raised by the state machine itself (a tape rejected at exit) is propagating
+ctl == <<raising, skipc, skipt>>
+ivars == <<prog, flav, acts, pc, vs, recent, trys, lastq, hist, status, bad, ctl>>
 vars == <<qvars, ivars>>
 
 \* the exhaustive grammar plus the explicitly given programs (evaluated once, in Init)
@@ -33,7 +35,7 @@ Init == /\ stack = <<>> /\ saved = <<>> /\ queues = <<>> /\ created = <<>> /\ co
         /\ objs = PreObjs /\ unrec = 1..MaxRef
         /\ prog \in Progs /\ flav \in 0..(NFlav - 1)
         /\ acts = Flat(prog) /\ pc = 1 /\ vs = <<>> /\ recent = [j \in 1..MaxRef |-> j] /\ trys = <<>> /\ lastq = 0
-        /\ hist = <<>> /\ status = "run" /\ bad = ""
+        /\ hist = <<>> /\ status = "run" /\ bad = "" /\ raising = FALSE /\ skipc = 0 /\ skipt = 0
 
 InitLaw == Assert(RangeLaw(RangeB), "RangeLaw: the two definitions of Python's range disagree") /\ Init
 
@@ -45,40 +47,45 @@ Vis(new, r) == hist' = Append(hist, [a |-> Cur.a, n |-> new, r |-> r, st |-> sta
 Quiet == hist' = hist
 Adv == pc' = pc + 1
 
-Invalid == /\ status' = "invalid" /\ UNCHANGED <<qvars, prog, flav, acts, pc, vs, recent, trys, lastq, hist, bad>>
+Invalid == /\ status' = "invalid" /\ UNCHANGED <<qvars, ctl, prog, flav, acts, pc, vs, recent, trys, lastq, hist, bad>>
 
 \* Flattening: ctrl of a Controlled, a + b on a Sum, a @ b on a Prod build ONE wrapper over the operands of the nested
 \* wrapper, which then owns them.  Whether a constructor flattens is not part of the property: a wrapper takes its direct
 \* operands out of the active queue and MAY also take the operands reached through nested wrappers of its own kind.
 RECURSIVE Chain(_, _)
-Chain(k, X) == X \cup UNION {IF objs[x].k = k THEN Chain(k, SeqSet(objs[x].a)) ELSE {} : x \in X}
+Chain(k, X) == X \cup UNION {IF objs[x].k \in {k, "eager"} THEN Chain(k, SeqSet(objs[x].a)) ELSE {} : x \in X}
 InTop(X) == IF stack = <<>> THEN {} ELSE X \cap SeqSet(queues[Last(stack)])
 Takes(k, direct) == IF k \in {"ctrl", "sum", "prod"} THEN {direct, direct \cup InTop(Chain(k, direct))} ELSE {direct}
 
 DoG == /\ Cur.a = "g" /\ Create(Term("g", Cur.p, Cur.iv, <<>>), {})
        /\ vs' = Append(vs, NewId) /\ Vis(NewId, 0) /\ Adv
-       /\ UNCHANGED <<prog, flav, acts, recent, trys, lastq, status, bad>>
+       /\ UNCHANGED <<ctl, prog, flav, acts, recent, trys, lastq, status, bad>>
 DoRef == /\ Cur.a = "ref"
          /\ IF Cur.r > Len(recent) THEN Invalid
             ELSE /\ vs' = Append(vs, recent[Cur.r]) /\ Quiet /\ Adv
-                 /\ UNCHANGED <<qvars, prog, flav, acts, recent, trys, lastq, status, bad>>
+                 /\ UNCHANGED <<qvars, ctl, prog, flav, acts, recent, trys, lastq, status, bad>>
 DoU == /\ Cur.a = "u"
        /\ LET x == Last(vs)  k == Pick(UKinds, Cur.p) IN \E ops \in Takes(k, {x}) : Create(Term(k, Cur.p, Cur.iv, <<x>>), ops)
        /\ vs' = Append(Pop(vs), NewId) /\ Vis(NewId, 0) /\ Adv
-       /\ UNCHANGED <<prog, flav, acts, recent, trys, lastq, status, bad>>
+       /\ UNCHANGED <<ctl, prog, flav, acts, recent, trys, lastq, status, bad>>
+\* eager wrappers: the operand leaves the active queue, ONE new operator (whatever it simplifies to) is recorded
+DoE == /\ Cur.a = "e"
+       /\ LET x == Last(vs) IN Create(Term("eager", Cur.p, Cur.iv, <<x>>), {x})
+       /\ vs' = Append(Pop(vs), NewId) /\ Vis(NewId, 0) /\ Adv
+       /\ UNCHANGED <<ctl, prog, flav, acts, recent, trys, lastq, status, bad>>
 DoP == /\ Cur.a = "p"
        /\ LET y == Last(vs)  x == vs[Len(vs) - 1]  k == Pick(PKinds, Cur.p) IN
             \E ops \in Takes(k, {x, y}) : Create(Term(k, Cur.p, Cur.iv, <<x, y>>), ops)
        /\ vs' = Append(Pop(Pop(vs)), NewId) /\ Vis(NewId, 0) /\ Adv
-       /\ UNCHANGED <<prog, flav, acts, recent, trys, lastq, status, bad>>
+       /\ UNCHANGED <<ctl, prog, flav, acts, recent, trys, lastq, status, bad>>
 DoDo == /\ Cur.a = "do" /\ recent' = Push(Last(vs)) /\ vs' = Pop(vs) /\ Quiet /\ Adv
-        /\ UNCHANGED <<qvars, prog, flav, acts, trys, lastq, status, bad>>
+        /\ UNCHANGED <<qvars, ctl, prog, flav, acts, trys, lastq, status, bad>>
 DoMeas == /\ Cur.a = "meas"
           /\ IF Cur.r = 1 THEN /\ Create(Term(Pick(MKinds, Cur.p), Cur.p, Cur.iv, <<Last(vs)>>), {Last(vs)})
                                /\ vs' = Pop(vs)
              ELSE Create(Term("probs", Cur.p, Cur.iv, <<>>), {}) /\ vs' = vs
           /\ Vis(NewId, 0) /\ Adv
-          /\ UNCHANGED <<prog, flav, acts, recent, trys, lastq, status, bad>>
+          /\ UNCHANGED <<ctl, prog, flav, acts, recent, trys, lastq, status, bad>>
 \* qp.apply(src): a copy of src is queued.  Direct operands of src that sit in the active queue: kept or taken
 DoApply == /\ Cur.a = "apply"
            /\ IF Cur.r > Len(recent) THEN Invalid
@@ -87,39 +94,49 @@ DoApply == /\ Cur.a = "apply"
                    /\ stack # <<>>
                    /\ \E ops \in {{}, shared} : Create(objs[src], ops)
                    /\ recent' = Push(NewId) /\ Vis(NewId, 0) /\ Adv
-                   /\ UNCHANGED <<prog, flav, acts, vs, trys, lastq, status, bad>>
+                   /\ UNCHANGED <<ctl, prog, flav, acts, vs, trys, lastq, status, bad>>
 DoApplyErr == /\ Cur.a = "applyerr"
               /\ IF Cur.r > Len(recent) THEN Invalid
                  ELSE /\ UNCHANGED qvars
                       /\ bad' = IF stack # <<>> /\ bad = "" THEN "applyerr-while-recording" ELSE bad
                       /\ Vis(0, 0) /\ Adv
-                      /\ UNCHANGED <<prog, flav, acts, vs, recent, trys, lastq, status>>
+                      /\ UNCHANGED <<ctl, prog, flav, acts, vs, recent, trys, lastq, status>>
 DoEnter == /\ Cur.a \in {"enter", "ienter"} /\ Enter
            /\ (IF Cur.a = "enter" THEN Vis(0, 0) ELSE Quiet) /\ Adv
-           /\ UNCHANGED <<prog, flav, acts, vs, recent, trys, lastq, status, bad>>
+           /\ UNCHANGED <<ctl, prog, flav, acts, vs, recent, trys, lastq, status, bad>>
 DoExit == /\ Cur.a \in {"exit", "iexit"} /\ Exit /\ lastq' = Last(stack)
           /\ (IF Cur.a = "exit" THEN Vis(0, 0) ELSE Quiet) /\ Adv
-          /\ UNCHANGED <<prog, flav, acts, vs, recent, trys, status, bad>>
+          /\ UNCHANGED <<ctl, prog, flav, acts, vs, recent, trys, status, bad>>
+\* with QuantumTape(): leaving it pops the context and then builds the tape, which fails when an operator follows a
+\* measurement in its queue; the exception propagates (raising) with the context stack already restored
+IsOpT(t) == t.k \notin {"expval", "var", "sample", "counts", "probs"}
+BadOrder(q) == \E i \in 1..Len(q), j \in 1..Len(q) : i < j /\ ~IsOpT(objs[q[i]]) /\ IsOpT(objs[q[j]])
+DoTEnter == /\ Cur.a = "tenter" /\ EnterTape(Term("tape", Cur.p, Cur.iv, <<>>)) /\ Vis(NewId, 0) /\ Adv
+            /\ UNCHANGED <<ctl, prog, flav, acts, vs, recent, trys, lastq, status, bad>>
+DoTExit == /\ Cur.a = "texit" /\ Exit /\ lastq' = Last(stack) /\ Vis(0, 0) /\ Adv
+           /\ raising' = (raising \/ BadOrder(queues[Last(stack)])) /\ UNCHANGED <<skipc, skipt>>
+           /\ UNCHANGED <<prog, flav, acts, vs, recent, trys, status, bad>>
 DoStopEnter == /\ Cur.a = "stopenter" /\ StopEnter /\ Vis(0, 0) /\ Adv
-               /\ UNCHANGED <<prog, flav, acts, vs, recent, trys, lastq, status, bad>>
+               /\ UNCHANGED <<ctl, prog, flav, acts, vs, recent, trys, lastq, status, bad>>
 DoStopExit == /\ Cur.a = "stopexit" /\ StopExit /\ Vis(0, 0) /\ Adv
-              /\ UNCHANGED <<prog, flav, acts, vs, recent, trys, lastq, status, bad>>
+              /\ UNCHANGED <<ctl, prog, flav, acts, vs, recent, trys, lastq, status, bad>>
 DoTry == /\ Cur.a = "try" /\ trys' = Append(trys, <<stack, saved>>) /\ Quiet /\ Adv
-         /\ UNCHANGED <<qvars, prog, flav, acts, vs, recent, lastq, status, bad>>
+         /\ UNCHANGED <<qvars, ctl, prog, flav, acts, vs, recent, lastq, status, bad>>
 \* after try/except - whether or not an exception passed - the context stack is what it was at `try`
 DoTryEnd == /\ Cur.a = "tryend" /\ UNCHANGED qvars /\ trys' = Pop(trys)
             /\ bad' = IF bad = "" /\ Last(trys) # <<stack, saved>> THEN "stack-not-restored" ELSE bad
             /\ vs' = <<>>                   \* operands of an interrupted expression are dropped
-            /\ Vis(0, Cur.r) /\ Adv
+            /\ Vis(0, IF raising THEN 1 ELSE Cur.r) /\ Adv
+            /\ raising' = FALSE /\ UNCHANGED <<skipc, skipt>>
             /\ UNCHANGED <<prog, flav, acts, recent, lastq, status>>
 DoSilent == /\ Cur.a = "raise" /\ Quiet /\ Adv
-            /\ UNCHANGED <<qvars, prog, flav, acts, vs, recent, trys, lastq, status, bad>>
+            /\ UNCHANGED <<qvars, ctl, prog, flav, acts, vs, recent, trys, lastq, status, bad>>
 DoMark == /\ Cur.a \in {"mark", "ret"} /\ UNCHANGED qvars /\ Vis(0, Cur.r) /\ Adv
-          /\ UNCHANGED <<prog, flav, acts, vs, recent, trys, lastq, status, bad>>
+          /\ UNCHANGED <<ctl, prog, flav, acts, vs, recent, trys, lastq, status, bad>>
 DoMMeas == /\ Cur.a = "mmeas" /\ Create(Term("mid", Cur.p, Cur.iv, <<>>), {}) /\ Vis(NewId, 0) /\ Adv
-           /\ UNCHANGED <<prog, flav, acts, vs, recent, trys, lastq, status, bad>>
+           /\ UNCHANGED <<ctl, prog, flav, acts, vs, recent, trys, lastq, status, bad>>
 \* the operators recorded by the body (queue lastq) are wrapped one by one and queued in the active context
-IsOp(o) == objs[o].k \notin {"expval", "var", "sample", "counts", "probs"}
+IsOp(o) == IsOpT(objs[o])
 Rev(s) == [i \in 1..Len(s) |-> s[Len(s) + 1 - i]]
 DoLift == /\ Cur.a = "lift"
           /\ LET inner == SelectSeq(queues[lastq], IsOp)
@@ -128,13 +145,25 @@ DoLift == /\ Cur.a = "lift"
              \E ops \in (IF Cur.r = 4 THEN {{}, InTop(Chain("ctrl", SeqSet(src)))} ELSE {{}}) :
                 CreateMany([j \in 1..Len(src) |-> Term(k, Cur.p, Cur.iv, <<src[j]>>)], ops)
           /\ Quiet /\ Adv
-          /\ UNCHANGED <<prog, flav, acts, vs, recent, trys, lastq, status, bad>>
+          /\ UNCHANGED <<ctl, prog, flav, acts, vs, recent, trys, lastq, status, bad>>
 DoFin == /\ Cur.a = "fin" /\ UNCHANGED qvars /\ Vis(0, 0) /\ status' = "done" /\ pc' = pc
-         /\ UNCHANGED <<prog, flav, acts, vs, recent, trys, lastq, bad>>
+         /\ UNCHANGED <<ctl, prog, flav, acts, vs, recent, trys, lastq, bad>>
+
+\* while an exception propagates: contexts entered before it are left (their exits are executed), everything else up
+\* to the matching `except` is skipped (enters / trys met on the way are skipped together with their exits / excepts)
+EnterOps == {"enter", "ienter", "stopenter", "tenter"}
+ExitOps == {"exit", "iexit", "stopexit", "texit"}
+Unwinding == (Cur.a \in ExitOps /\ skipc = 0) \/ (Cur.a = "tryend" /\ skipt = 0)
+DoSkip == /\ raising /\ ~Unwinding /\ Cur.a # "fin"
+          /\ skipc' = IF Cur.a \in EnterOps THEN skipc + 1 ELSE IF Cur.a \in ExitOps THEN skipc - 1 ELSE skipc
+          /\ skipt' = IF Cur.a = "try" THEN skipt + 1 ELSE IF Cur.a = "tryend" THEN skipt - 1 ELSE skipt
+          /\ Quiet /\ Adv /\ UNCHANGED <<qvars, raising, prog, flav, acts, vs, recent, trys, lastq, status, bad>>
 
 Next == /\ status = "run"
-        /\ \/ DoG \/ DoRef \/ DoU \/ DoP \/ DoDo \/ DoMeas \/ DoApply \/ DoApplyErr \/ DoEnter \/ DoExit
-           \/ DoStopEnter \/ DoStopExit \/ DoTry \/ DoTryEnd \/ DoSilent \/ DoMark \/ DoMMeas \/ DoLift \/ DoFin
+        /\ IF raising THEN DoSkip \/ (Unwinding /\ (DoExit \/ DoStopExit \/ DoTExit \/ DoTryEnd))
+           ELSE \/ DoG \/ DoRef \/ DoU \/ DoE \/ DoP \/ DoDo \/ DoMeas \/ DoApply \/ DoApplyErr \/ DoEnter \/ DoExit
+                \/ DoStopEnter \/ DoStopExit \/ DoTEnter \/ DoTExit \/ DoTry \/ DoTryEnd \/ DoSilent \/ DoMark \/ DoMMeas
+                \/ DoLift \/ DoFin
 
 (* ------------------------------------------------------------------ model-level conjuncts *)
 Good == bad = ""
